@@ -364,7 +364,7 @@ def dltyped_namedtuple(
         # Create a new __new__ method that validates on construction
         original_new = cls.__new__
 
-        def validated_new(cls_inner: type[NT], *args: Any, **kwargs: Any) -> NT:  # noqa: ANN401 (these actually can be any type)
+        def validated_new(cls_inner: type[NT], /, *args: Any, **kwargs: Any) -> NT:  # noqa: ANN401 (these actually can be any type)
             """A new __new__ method that validates the fields upon construction."""
             # First create the instance using the original __new__
             instance = original_new(cls_inner, *args, **kwargs)
@@ -429,7 +429,7 @@ def dltyped_dataclass(
         field_hints = get_type_hints(cls, include_extras=True)
         dltype_hints = {name: DLTypeAnnotation.from_hint(hint, name) for name, hint in field_hints.items()}
 
-        def new_init(self: DataclassT, *args: Any, **kwargs: Any) -> None:  # noqa: ANN401
+        def new_init(self: DataclassT, /, *args: Any, **kwargs: Any) -> None:  # noqa: ANN401
             """A new __init__ method that validates the fields after initialization."""
             # First call the original __init__
             original_init(self, *args, **kwargs)
